@@ -361,6 +361,15 @@ structure OpCodeI where
   j2 : Int
 deriving Repr, DecidableEq
 
+/-- `diffmatchpatch.Diff`: one chunk of a character-level diff.  `type` is the `Operation`
+    (`DiffDelete = -1`, `DiffInsert = 1`, `DiffEqual = 0`; the translated code compares it with the
+    constants `diffDelete / diffInsert / diffEqual` of snaps/diff.go, resolved to these numbers),
+    `text` the chunk's text.  The library itself is a parameter of the translated `singlelineDiff`. -/
+structure DiffChunk where
+  type : Int
+  text : Text
+deriving Repr, DecidableEq
+
 /-! ## the match package: matcher values and the document libraries as parameters -/
 
 /-- `gjson.Result` as far as the matchers look at it -/
